@@ -68,6 +68,19 @@ def make_queries(rng, k, big=False):
             off += 1
         net = gen.Net([[ren[i] for i in t] for t in net.inputs], [ren[i] for i in net.output], {ren[k_]: v for k_, v in net.size_dict.items() if k_ in ren}, "graph")
         out.append(net)
+    if rng.random() < 0.6:
+        # a TWIN: the same tensors with the index order permuted inside tensors and output - a
+        # different contraction (different axis order) that reusable caches may legitimately answer
+        # from the same entry, but the answer must still be a tree of THIS query
+        src = rng.choice(out)
+        ins = [list(t) for t in src.inputs]
+        for t in ins:
+            rng.shuffle(t)
+        o = list(src.output)
+        rng.shuffle(o)
+        twin = gen.Net(ins, o, src.size_dict, "graph")
+        if twin.inputs != src.inputs or twin.output != src.output:
+            out.append(twin)
     return out
 
 
@@ -229,6 +242,7 @@ def run_schedule(case, nets, opt_factory, prefix, bound):
 def explore(rep, case, tmpdir, max_runs, bound):
     """DFS over schedules with a preemption bound."""
     warnings.filterwarnings("ignore")
+    warm_up_pool()
     install_yield_points()
     nets = [gen.Net.from_json(j) for j in case["nets"]]
     counter = {"n": 0}
@@ -287,8 +301,21 @@ def explore(rep, case, tmpdir, max_runs, bound):
 # -------------------------------- stress -------------------------------------- #
 
 
+def warm_up_pool():
+    """The presets with parallel='auto' import joblib's loky lazily on first use; several threads
+    doing that first import at once hit a circular-import race inside joblib (third-party, and
+    nothing to do with which tree is returned) - so the first use happens here, in one thread."""
+    try:
+        from cotengra.parallel import parse_parallel_arg
+
+        parse_parallel_arg("auto")
+    except Exception:
+        pass
+
+
 def run_stress(rep, case, tmpdir):
     warnings.filterwarnings("ignore")
+    warm_up_pool()
     nets = [gen.Net.from_json(j) for j in case["nets"]]
     opt = make_optimizer(case["kind"], tmpdir)
     bad = []
@@ -365,7 +392,7 @@ def run_shard(rep, tier, seed, shard, nshards):
         if mode == "sequential":
             perm = list(range(len(nets)))
             rng.shuffle(perm)
-            order = perm + [rng.randrange(len(nets)) for _ in range(rng.randint(1, 4))]
+            order = perm + [rng.randrange(len(nets)) for _ in range(rng.randint(2, 6))]
             case["order"] = [(qi, rng.choice(ents)) for qi in order]
             key = (kind, tuple(case["order"]), tuple(n.N for n in nets))
         elif mode == "scheduled":
